@@ -32,6 +32,10 @@ def main():
             print("PATCH DOES NOT APPLY:", out_a)
             return 1
         rc, out = sh(["/venv/bin/python", "-m", "pytest", "-q", "-p", "no:cacheprovider", "-n", "8", "tests"], cwd=wt)
+        if "passed" not in (out.strip().splitlines() or [""])[-1]:
+            # collection errors seen when several suites run at once on this box (shared sqlite test artefacts): retry once, keep the first output
+            log["suite_first_attempt"] = [l for l in out.splitlines() if "rror" in l][:8]
+            rc, out = sh(["/venv/bin/python", "-m", "pytest", "-q", "-p", "no:cacheprovider", "-n", "8", "tests"], cwd=wt)
         failed = {l.split(" ")[1] for l in out.splitlines() if l.startswith("FAILED ")}
         log["suite_failed_beyond_known"] = sorted(failed - KNOWN_FAIL)
         log["suite_tail"] = out.strip().splitlines()[-1] if out.strip() else ""
